@@ -429,7 +429,16 @@ func ruleSimplify(rule string) func(*Ctx) {
 			}
 		}
 		// distance: coordinates enter only through same-axis differences (translation invariance)
-		for _, name := range []string{"PerpendicDistFromLineSqr64", "PerpendicDistFromLineSqrD"} {
+		ruleOnlyDifferences(rule+".diff", []string{"PerpendicDistFromLineSqr64", "PerpendicDistFromLineSqrD"}, 6,
+			"the set of retained indices must not change when the path is translated")(c)
+	}
+}
+
+// ruleOnlyDifferences: in the named functions every coordinate read of a Point parameter is consumed only by a
+// subtraction from a same-axis coordinate, so the function is EXACTLY invariant under translation of its inputs.
+func ruleOnlyDifferences(rule string, fns []string, minReads int, why string) func(*Ctx) {
+	return func(c *Ctx) {
+		for _, name := range fns {
 			f := c.fn(name)
 			bad := ""
 			n := 0
@@ -471,8 +480,8 @@ func ruleSimplify(rule string) func(*Ctx) {
 						if _, dbg := r.(*ssa.DebugRef); dbg {
 							continue
 						}
-						if !ok || bo.Op != token.SUB {
-							bad = fmt.Sprintf("coordinate %s.%s is used outside a difference: %s", pn, axis, r.String())
+						if !ok || (bo.Op != token.SUB && !isCmp(bo.Op)) {
+							bad = fmt.Sprintf("coordinate %s.%s is used outside a same-axis difference or comparison: %s", pn, axis, r.String())
 							continue
 						}
 						other := bo.X
@@ -486,9 +495,11 @@ func ruleSimplify(rule string) func(*Ctx) {
 					}
 				}
 			}
-			c.check(bad == "" && n >= 6, rule+".diff", fmt.Sprintf("%s.diff:%s", rule, name), f.Pos(), name,
-				fmt.Sprintf("all %d coordinate reads are consumed only by same-axis differences: the distance is exactly translation invariant", n), bad,
-				"the set of retained indices must not change when the path is translated")
+			if n < minReads && bad == "" {
+				bad = fmt.Sprintf("only %d coordinate reads found (expected at least %d): the function changed shape", n, minReads)
+			}
+			c.check(bad == "", rule, fmt.Sprintf("%s:%s", rule, name), f.Pos(), name,
+				fmt.Sprintf("all %d coordinate reads are consumed only by same-axis differences: the result is exactly translation invariant", n), bad, why)
 		}
 	}
 }
